@@ -25,7 +25,7 @@
    scalar values off them.  Equality of values is Python's ==
    (1 == 1.0 == True), an equivalence ([C13_py_eq_equivalence]). *)
 From Coq Require Import List Ascii String ZArith QArith Bool.
-From YP Require Import Outcome PyStr PyVal Doc PathParser Searches Keywords SpecC13 PyValOrder KeywordProofs GroupProofs.
+From YP Require Import Outcome PyStr PyVal Doc PathParser Searches Keywords SpecC12 SpecC13 PyValOrder KeywordProofs GroupProofs MixedProofs.
 Import ListNotations.
 Open Scope string_scope.
 
@@ -136,6 +136,158 @@ Theorem C13_max_min_ints :
       forall c, In c res <-> selected cmp invert (map (list_member node_str x) (enumerate els)) c.
 Proof. exact (fun lit re ns => extremum_list_ints lit re ns (NLeaf (mkinfo 0 None false None) PNone)). Qed.
 Print Assumptions C13_max_min_ints.
+
+(* ---- "is its own typed reading", discharged as far as the code allows ----
+   Nodes.typed_value consults ast.literal_eval only for a str (and for a value
+   whose text spells true / false).  So a FLOAT is its own typed reading unless
+   its repr spells a boolean -- no oracle is involved --; a TEXT is, exactly
+   when it spells no boolean and literal_eval rejects it ([lit_rejects]: a
+   ValueError / SyntaxError, or one of the other classes typed_value catches).
+   The hypothesis cannot be dropped for text: text that literal_eval reads as a
+   value is compared as that value ([C13_text_literal_reads_as_value]; e.g.
+   under [lit_reads_repr] -- the oracle reads a float's repr back as the float,
+   true of CPython -- the text '2.5' is compared as the float 2.5). *)
+Theorem C13_float_is_same_kind :
+  forall lit q r, bool_spelling r = None -> same_kind lit SKFloat (PFloat q r).
+Proof. exact float_same_kind. Qed.
+Print Assumptions C13_float_is_same_kind.
+
+Theorem C13_text_is_same_kind :
+  forall lit t, bool_spelling t = None -> lit_rejects lit t -> same_kind lit SKText (PStr t).
+Proof. exact text_same_kind. Qed.
+Print Assumptions C13_text_is_same_kind.
+
+Theorem C13_text_literal_reads_as_value :
+  forall lit t v, bool_spelling t = None -> lit t = Ok (LVal v) -> typed_value lit (PStr t) = Ok v.
+Proof. exact typed_value_text_literal. Qed.
+
+Theorem C13_numeric_text_reads_as_float :
+  forall lit q r, bool_spelling r = None -> lit_reads_repr lit q r -> typed_value lit (PStr r) = Ok (PFloat q r).
+Proof. exact typed_value_repr_text. Qed.
+
+(* max / min over a list of floats, and over a list of words, with no
+   hypothesis about typed readings left (compare C13_max_min_ints) *)
+Theorem C13_max_min_floats :
+  forall lit re_search node_str cmp invert i els x,
+    cmp = MGt \/ cmp = MLt ->
+    node_is_aoh true (NSeq i els) = false ->
+    (forall v c, In (Some v, c) (map (list_member node_str x) (enumerate els)) ->
+                 exists q r, v = PFloat q r /\ bool_spelling r = None) ->
+    exists res,
+      extremum lit re_search node_str cmp invert [] (NSeq i els) x = Ok res /\
+      forall c, In c res <-> selected cmp invert (map (list_member node_str x) (enumerate els)) c.
+Proof. exact extremum_list_floats. Qed.
+Print Assumptions C13_max_min_floats.
+
+Theorem C13_max_min_words :
+  forall lit re_search node_str cmp invert i els x,
+    cmp = MGt \/ cmp = MLt ->
+    node_is_aoh true (NSeq i els) = false ->
+    (forall v c, In (Some v, c) (map (list_member node_str x) (enumerate els)) ->
+                 exists t, v = PStr t /\ bool_spelling t = None /\ lit_rejects lit t) ->
+    exists res,
+      extremum lit re_search node_str cmp invert [] (NSeq i els) x = Ok res /\
+      forall c, In c res <-> selected_by text_le cmp invert (map (list_member node_str x) (enumerate els)) c.
+Proof. exact extremum_list_words. Qed.
+Print Assumptions C13_max_min_words.
+
+(* ---- lists mixing ints with floats: OUTSIDE the property's quantifier
+   ("sequences of same-kind scalars"; C12 uses "numbers of the same kind" for
+   int-with-int / float-with-float, and documents that an int equals a float
+   only as TEXT).  What the code does on them is pinned here.
+
+   [mixed_num]: an int, or a float whose repr is what Python prints for a float
+   ([float_repr_ok], computable: not the text of an integer, not a boolean
+   spelling).  [mixed_split cmp ms pre b c0 post]: the collection splits at its
+   FIRST extremal member (b, c0) -- every member before it is strictly worse,
+   no member after it is better.  [mixed_selected]: selected are c0 and the
+   LATER members of the same numeric type (int / float) with an equal value
+   ([mixed_eq], what Searches.search_matches(EQUALS) answers); inverted, all the
+   other members, nulls included. *)
+Theorem C13_max_min_mixed_selects :
+  forall lit re_search node_str cmp invert i els x,
+    cmp = MGt \/ cmp = MLt ->
+    node_is_aoh true (NSeq i els) = false ->
+    (forall v c, In (Some v, c) (map (list_member node_str x) (enumerate els)) -> mixed_num v) ->
+    exists res,
+      extremum lit re_search node_str cmp invert [] (NSeq i els) x = Ok res /\
+      forall c, In c res <-> mixed_selected cmp invert (map (list_member node_str x) (enumerate els)) c.
+Proof. exact extremum_list_mixed. Qed.
+Print Assumptions C13_max_min_mixed_selects.
+
+(* the property's statement holds of a mixed list under the computable guard
+   [no_cross_equal]: no int member is numerically equal to a float member *)
+Theorem C13_max_min_mixed_partial :
+  forall lit re_search node_str cmp invert i els x,
+    cmp = MGt \/ cmp = MLt ->
+    node_is_aoh true (NSeq i els) = false ->
+    (forall v c, In (Some v, c) (map (list_member node_str x) (enumerate els)) -> mixed_num v) ->
+    no_cross_equal (map (list_member node_str x) (enumerate els)) = true ->
+    exists res,
+      extremum lit re_search node_str cmp invert [] (NSeq i els) x = Ok res /\
+      forall c, In c res <-> selected cmp invert (map (list_member node_str x) (enumerate els)) c.
+Proof. exact extremum_list_mixed_partial. Qed.
+Print Assumptions C13_max_min_mixed_partial.
+
+(* the same two statements for an Array-of-Hashes and for a hash of hashes whose
+   named attribute (present, absent, repeated or null) mixes ints with floats *)
+Theorem C13_max_min_mixed_selects_attr :
+  forall lit re_search node_str cmp invert attr i els x,
+    cmp = MGt \/ cmp = MLt ->
+    node_is_aoh true (NSeq i els) = true ->
+    (forall v c, In (Some v, c) (map (aoh_member node_str attr x) (enumerate els)) -> mixed_num v) ->
+    exists res,
+      extremum lit re_search node_str cmp invert [attr] (NSeq i els) x = Ok res /\
+      forall c, In c res <-> mixed_selected cmp invert (map (aoh_member node_str attr x) (enumerate els)) c.
+Proof. exact extremum_aoh_mixed. Qed.
+Print Assumptions C13_max_min_mixed_selects_attr.
+
+Theorem C13_max_min_mixed_selects_hoh :
+  forall lit re_search node_str cmp invert attr i kvs x,
+    cmp = MGt \/ cmp = MLt ->
+    forallb (fun kv => is_map (snd kv)) kvs = true ->
+    (forall v c, In (Some v, c) (map (hoh_member node_str attr x) kvs) -> mixed_num v) ->
+    exists res,
+      extremum lit re_search node_str cmp invert [attr] (NMap i kvs) x = Ok res /\
+      forall c, In c res <-> mixed_selected cmp invert (map (hoh_member node_str attr x) kvs) c.
+Proof. exact extremum_hoh_mixed. Qed.
+Print Assumptions C13_max_min_mixed_selects_hoh.
+
+Theorem C13_max_min_mixed_attr_partial :
+  forall lit re_search node_str cmp invert attr i els x,
+    cmp = MGt \/ cmp = MLt ->
+    node_is_aoh true (NSeq i els) = true ->
+    (forall v c, In (Some v, c) (map (aoh_member node_str attr x) (enumerate els)) -> mixed_num v) ->
+    no_cross_equal (map (aoh_member node_str attr x) (enumerate els)) = true ->
+    exists res,
+      extremum lit re_search node_str cmp invert [attr] (NSeq i els) x = Ok res /\
+      forall c, In c res <-> selected cmp invert (map (aoh_member node_str attr x) (enumerate els)) c.
+Proof. exact extremum_aoh_mixed_partial. Qed.
+Print Assumptions C13_max_min_mixed_attr_partial.
+
+Theorem C13_max_min_mixed_hoh_partial :
+  forall lit re_search node_str cmp invert attr i kvs x,
+    cmp = MGt \/ cmp = MLt ->
+    forallb (fun kv => is_map (snd kv)) kvs = true ->
+    (forall v c, In (Some v, c) (map (hoh_member node_str attr x) kvs) -> mixed_num v) ->
+    no_cross_equal (map (hoh_member node_str attr x) kvs) = true ->
+    exists res,
+      extremum lit re_search node_str cmp invert [attr] (NMap i kvs) x = Ok res /\
+      forall c, In c res <-> selected cmp invert (map (hoh_member node_str attr x) kvs) c.
+Proof. exact extremum_hoh_mixed_partial. Qed.
+Print Assumptions C13_max_min_mixed_hoh_partial.
+
+(* ... and not without it: x: [5, 5.0] -- both members are greatest, max()
+   yields only the first *)
+Theorem C13_max_min_mixed_refuted :
+  (node_is_aoh true mx_list = false /\
+   (forall v c, In (Some v, c) mx_ms -> mixed_num v) /\
+   no_cross_equal mx_ms = false) /\
+  exists res,
+    kw_max mx_lit mx_re mx_str false [] mx_list mx_ctx = Ok res /\
+    exists c, max_members coords num_key mx_ms c /\ ~ In c res.
+Proof. exact (conj mx_hyps mixed_refuted). Qed.
+Print Assumptions C13_max_min_mixed_refuted.
 
 (* ---- max / min over a list of text (nulls allowed): lexicographic ---- *)
 Theorem C13_max_text :
@@ -589,13 +741,72 @@ Qed.
 
 (* x: [5, 5.0] -- ints mixed with floats are outside "same-kind scalars": the
    code orders them numerically but tests equality on their text, so max()
-   yields only the first of two numerically equal members *)
+   yields only the first of two numerically equal members (the witness of
+   C13_max_min_mixed_refuted) *)
 Example C13_ex_mixed_numeric_outside :
   omap (map c_node)
        (kw_max ex_lit ex_re ex_str false []
           (NSeq (mkinfo 2 None true None) [lf 5 (PInt 5); lf 6 (PFloat 5 "5.0")]) ex_ctx) =
     Ok [AtLoc [RKey (PStr "x"); RIdx 0]].
 Proof. vm_compute. reflexivity. Qed.
+
+(* x: [3, 5.0, 5, null, 5.0, 1]: the hypotheses of C13_max_min_mixed_selects hold (and the guard of
+   C13_max_min_mixed_partial does not); max() yields the first greatest member 5.0 and the later 5.0, not the
+   int 5; inverted, all the others *)
+Definition ex_mixed : list node :=
+  [lf 3 (PInt 3); lf 6 (PFloat 5 "5.0"); lf 5 (PInt 5); lf 4 PNone; lf 7 (PFloat 5 "5.0"); lf 8 (PInt 1)].
+Example C13_ex_mixed_hyps :
+  node_is_aoh true (NSeq (mkinfo 2 None true None) ex_mixed) = false /\
+  (forall v c, In (Some v, c) (map (list_member ex_str ex_ctx) (enumerate ex_mixed)) -> mixed_num v) /\
+  no_cross_equal (map (list_member ex_str ex_ctx) (enumerate ex_mixed)) = false.
+Proof.
+  split; [reflexivity|]. split; [|vm_compute; reflexivity]. intros v c H. cbv in H.
+  repeat (destruct H as [H|H];
+          [inversion H; subst;
+           first [left; eexists; reflexivity | right; eexists; eexists; split; [reflexivity|vm_compute; reflexivity]]|]).
+  contradiction.
+Qed.
+Example C13_ex_mixed :
+  omap (map c_node) (kw_max ex_lit ex_re ex_str false [] (NSeq (mkinfo 2 None true None) ex_mixed) ex_ctx) =
+    Ok [AtLoc [RKey (PStr "x"); RIdx 1]; AtLoc [RKey (PStr "x"); RIdx 4]] /\
+  omap (map c_node) (kw_max ex_lit ex_re ex_str true [] (NSeq (mkinfo 2 None true None) ex_mixed) ex_ctx) =
+    Ok [AtLoc [RKey (PStr "x"); RIdx 0]; AtLoc [RKey (PStr "x"); RIdx 2]; AtLoc [RKey (PStr "x"); RIdx 3];
+        AtLoc [RKey (PStr "x"); RIdx 5]] /\
+  omap (map c_node) (kw_min ex_lit ex_re ex_str false [] (NSeq (mkinfo 2 None true None) ex_mixed) ex_ctx) =
+    Ok [AtLoc [RKey (PStr "x"); RIdx 5]].
+Proof. vm_compute. repeat split; reflexivity. Qed.
+(* x: [{p: 2}, {q: 1}, {p: 2.0}, {p: null}, {p: 2}] by p: the hypotheses of C13_max_min_mixed_selects_attr hold;
+   max(p) yields the first record and the last (the int 2 twice), not the record with 2.0 *)
+Definition ex_mixed_aoh : list node :=
+  [mp 31 [(lf 13 (PStr "p"), lf 14 (PInt 2))]; mp 32 [(lf 19 (PStr "q"), lf 20 (PInt 1))];
+   mp 33 [(lf 13 (PStr "p"), lf 34 (PFloat 2 "2.0"))]; mp 35 [(lf 13 (PStr "p"), lf 4 PNone)];
+   mp 36 [(lf 13 (PStr "p"), lf 14 (PInt 2))]].
+Example C13_ex_mixed_aoh :
+  node_is_aoh true (NSeq (mkinfo 30 None true None) ex_mixed_aoh) = true /\
+  (forall v c, In (Some v, c) (map (aoh_member ex_str "p" ex_ctx) (enumerate ex_mixed_aoh)) -> mixed_num v) /\
+  omap (map c_node) (kw_max ex_lit ex_re ex_str false ["p"] (NSeq (mkinfo 30 None true None) ex_mixed_aoh) ex_ctx) =
+    Ok [AtLoc [RKey (PStr "x"); RIdx 0]; AtLoc [RKey (PStr "x"); RIdx 4]].
+Proof.
+  split; [reflexivity|]. split; [|vm_compute; reflexivity]. intros v c H. cbv in H.
+  repeat (destruct H as [H|H];
+          [first [discriminate H |
+                  inversion H; subst;
+                  first [left; eexists; reflexivity | right; eexists; eexists; split; [reflexivity|vm_compute; reflexivity]]]|]).
+  contradiction.
+Qed.
+(* x: [1, 2.5, 2, 2.5]: no int equals a float -- the guard of C13_max_min_mixed_partial holds *)
+Example C13_ex_mixed_guard :
+  no_cross_equal (map (list_member ex_str ex_ctx)
+                      (enumerate [lf 3 (PInt 1); lf 6 (PFloat (5 # 2) "2.5"); lf 5 (PInt 2); lf 7 (PFloat (5 # 2) "2.5")])) = true /\
+  omap (map c_node) (kw_max ex_lit ex_re ex_str false []
+         (NSeq (mkinfo 2 None true None) [lf 3 (PInt 1); lf 6 (PFloat (5 # 2) "2.5"); lf 5 (PInt 2); lf 7 (PFloat (5 # 2) "2.5")]) ex_ctx) =
+    Ok [AtLoc [RKey (PStr "x"); RIdx 1]; AtLoc [RKey (PStr "x"); RIdx 3]].
+Proof. vm_compute. split; reflexivity. Qed.
+(* the hypotheses of C13_float_is_same_kind / C13_text_is_same_kind hold of 2.5 and of the word abc *)
+Example C13_ex_typed_hyps :
+  bool_spelling "2.5" = None /\ float_repr_ok "2.5" = true /\
+  bool_spelling "abc" = None /\ lit_rejects ex_lit_t "abc".
+Proof. repeat split; try (vm_compute; reflexivity). left. reflexivity. Qed.
 
 Example C13_ex_parameter_misuse :
   kw_max ex_lit ex_re ex_str false ["p"] ex_list ex_ctx = Raise (YPE Generic) /\
